@@ -52,6 +52,7 @@ func main() {
 	horizon := flag.Int("horizon", 20000, "max steps per execution")
 	choices := flag.String("choices", "", "comma separated choice list (replay)")
 	nocache := flag.Bool("nocache", false, "disable happens-before state caching")
+	envonly := flag.Bool("envonly", false, "branch on environment choices only (default schedule)")
 	flag.Parse()
 	runtime.GOMAXPROCS(1)
 	debug.SetGCPercent(400)
@@ -86,7 +87,7 @@ func main() {
 			res.Error = "unknown scenario " + *name
 			return
 		}
-		e := &vsched.Explorer{Name: *name, Params: p.String(), Body: f(p), Bound: *bound, Horizon: *horizon, Shard: sh, NShards: nsh, NoCache: *nocache}
+		e := &vsched.Explorer{Name: *name, Params: p.String(), Body: f(p), Bound: *bound, Horizon: *horizon, Shard: sh, NShards: nsh, NoCache: *nocache, EnvOnly: *envonly}
 		if *budget > 0 {
 			e.Deadline = start.Add(time.Duration(*budget * float64(time.Second)))
 		}
